@@ -347,6 +347,11 @@ impl KrpcSocket {
                 .count(),
         )
     }
+
+    /// The adaptive request timeout in force right now.
+    pub(crate) fn verif_request_timeout(&self) -> std::time::Duration {
+        self.inflight_requests.request_timeout()
+    }
 }
 
 #[derive(thiserror::Error, Debug)]
